@@ -39,6 +39,7 @@ SecAction "id:10,phase:1,pass,nolog,verifdump:p1"
 SecRule ARGS_GET:cap "@rx ^(a)(b)(c)" "id:11,phase:1,pass,nolog,capture,setvar:tx.capd=%{TX.2}"
 SecRule ARGS_GET:setx "@streq 1" "id:12,phase:1,pass,nolog,setvar:tx.x=left,setvar:tx.cnt=+5,setenv:VERIFENV=left"
 SecRule ARGS_GET:ce_do "@streq 1" "id:13,phase:1,pass,nolog,ctl:ruleEngine=DetectionOnly"
+SecRule ARGS_GET:ce_on "@streq 1" "id:29,phase:1,pass,nolog,ctl:ruleEngine=On"
 SecRule ARGS_GET:c_audoff "@streq 1" "id:14,phase:1,pass,nolog,ctl:auditEngine=Off"
 SecRule ARGS_GET:c_parts "@streq 1" "id:15,phase:1,pass,nolog,ctl:auditLogParts=+E"
 SecRule ARGS_GET:c_rba "@streq 1" "id:16,phase:1,pass,nolog,ctl:requestBodyAccess=Off"
@@ -81,7 +82,7 @@ SecAction "id:139,phase:4,pass,nolog,setvar:tx.end4=1"
 SecAction "id:150,phase:5,pass,nolog,verifdump:p5"
 `
 
-var c05Steers = []string{"cap", "setx", "ce_do", "c_audoff", "c_parts", "c_rba", "c_rbl", "c_sba", "c_sbl", "c_json", "c_force", "c_rm", "c_rmr", "c_rmt", "c_rmtag", "c_fresp", "c_partsm", "c_partsh",
+var c05Steers = []string{"cap", "setx", "ce_do", "ce_on", "c_audoff", "c_parts", "c_rba", "c_rbl", "c_sba", "c_sbl", "c_json", "c_force", "c_rm", "c_rmr", "c_rmt", "c_rmtag", "c_fresp", "c_partsm", "c_partsh",
 	"d1", "sk1", "ska1", "al1", "alr1", "alp1", "t", "u", "d2", "sk2", "ska2", "d3", "al3", "d4"}
 
 type c05Tx struct {
@@ -103,7 +104,10 @@ type c05Tx struct {
 }
 
 type c05Case struct {
-	Pred  []c05Tx `json:"predecessors"`
+	// WafEngine: the WAF-level SecRuleEngine ("" = On). On a DetectionOnly WAF a predecessor can switch itself
+	// to On by ctl and leave enforcing state (allow, interruption) behind.
+	WafEngine string  `json:"waf_engine,omitempty"`
+	Pred      []c05Tx `json:"predecessors"`
 	Probe c05Tx   `json:"probe"`
 }
 
@@ -400,14 +404,19 @@ func c05Judge(w *fw.W, c *c05Case) {
 	old := debug.SetGCPercent(-1)
 	defer debug.SetGCPercent(old)
 	w.Trace(c)
-	used, err := sl.BuildText(c05Config)
+	conf := c05Config
+	if c.WafEngine != "" {
+		conf = strings.Replace(conf, "SecRuleEngine On", "SecRuleEngine "+c.WafEngine, 1)
+		w.Count("cases_on_waf_"+c.WafEngine, 1)
+	}
+	used, err := sl.BuildText(conf)
 	if err != nil {
 		w.Count("build_errors", 1)
 		w.Cover("build_error_samples", err.Error())
 		return
 	}
 	defer sl.CloseWAF(used)
-	fresh, _ := sl.BuildText(c05Config)
+	fresh, _ := sl.BuildText(conf)
 	defer sl.CloseWAF(fresh)
 	var lastTx types.Transaction
 	var readers []io.Reader
@@ -525,6 +534,18 @@ func init() {
 					c.Pred = append(c.Pred, c05GenTx(w.Rng, c05Steers[(i+k*7)%len(c05Steers)], false))
 				}
 				c.Probe = c05GenTx(w.Rng, "", true)
+				if i%5 == 4 {
+					// a DetectionOnly WAF whose predecessors mostly switch themselves to On
+					c.WafEngine = "DetectionOnly"
+					for k := range c.Pred {
+						if gen.Chance(w.Rng, 0.7) {
+							c.Pred[k].Steer = append([]string{"ce_on"}, c.Pred[k].Steer...)
+						}
+					}
+					if gen.Chance(w.Rng, 0.3) {
+						c.Probe.Steer = append([]string{"ce_on"}, c.Probe.Steer...)
+					}
+				}
 				c05Judge(w, c)
 				if w.WantSample() {
 					w.Sample(c)
